@@ -38,7 +38,7 @@ META = {
 }
 REQUIRED = ['Librfn.C06.' + t for t in (
     'accepted_never_lost', 'held_entry_joins_runq', 'history_accepted_never_lost', 'queues_not_corrupted', 'senders_leave_scheduler_alone',
-    'queues_satisfy_mq_inv', 'drained_by_pass', 'drain_leaves_nothing', 'drain_leaves_nothing_quiet', 'fast_path_not_taken',
+    'queues_satisfy_mq_inv', 'shifts_defined', 'drained_by_pass', 'drain_leaves_nothing', 'drain_leaves_nothing_quiet', 'fast_path_not_taken',
     'events_exactly_once_in_order', 'event_carries_its_senders_stamp', 'no_lost_event_wakeup', 'no_lost_event_wakeup_isr',
     'wakeup_with_isr', 'wake_value_is_returned', 'wakeup_with_isr_quiet', 'history_reachable', 'history_interrupt_only', 'interrupts_run_to_completion')]
 
@@ -557,7 +557,8 @@ def corpus():
     out = []
     for p in sorted(glob.glob(os.path.join(vlib.VERIF, 'corpus', 'C06', '*.json'))):
         j = json.load(open(p))
-        out.append(j['history'])
+        h = j['history']
+        out.append({'cfg': h['cfg'], 'items': [fix_item(it) for it in h['items']]})
     return out
 
 
